@@ -224,6 +224,32 @@ def q2(repo, res, canon, logic):
                             must |= logic.must(x.node, x.frame, x.pol)
                     trig = any(l.pol and l.atom.endswith('.triggered)') for l in must)
                     sites.setdefault(ef.node.lineno, []).append((trig, u, ef))
+    # workflow tasks ENTER the finished table (as keys) only on completion: algorithms read the keys
+    keysites = {}
+    for u in us:
+        if u.func is not alloc or u.world.get('ingest') is not False:
+            continue
+        for e, efs in u.effects:
+            for ef in efs:
+                if ef.kind == 'store' and ef.loc == CU.FINISHED:
+                    idx = u.path.events.index(e)
+                    must = set()
+                    for x in u.path.events[:idx]:
+                        if x.kind == 'test' and x.frame.depth == 0:
+                            must |= logic.must(x.node, x.frame, x.pol)
+                    trig = any(l.pol and l.atom.endswith('.triggered)') for l in must)
+                    keysites.setdefault(ef.node.lineno, []).append((trig, u, ef))
+    for line, lst in sorted(keysites.items()):
+        bad = [x for x in lst if not x[0]]
+        what = 'a workflow task becomes a key of tasks.finished (line %d) only under <handle>.triggered' % line
+        if bad:
+            res.bad('C03.Q2', alloc, lst[0][2].node, 'workflow task entered into tasks.finished at allocation',
+                    'a workflow task is entered into the finished table before it has completed; '
+                    'Cluster.finished_tasks (the keys) is what GreedySchedulingFromPlan tests predecessors against, '
+                    'so a successor can start while its predecessor is still running',
+                    path=bad[0][1].path.describe(), what=what)
+        else:
+            res.ok('C03.Q2', alloc, lst[0][2].node, what)
     for line, lst in sorted(sites.items()):
         bad = [x for x in lst if not x[0]]
         what = 'finished[task] = True (line %d) only under <handle>.triggered' % line
@@ -273,6 +299,10 @@ def q3(repo, res, canon, pc, logic):
     if lp and pc.p(lp[0].iter, fr) == '%s.pred' % tparam:
         ok = True
         for seg, how in iteration_segments(f, lp[0]):
+            if how != 'back':
+                ok, why = False, ('the loop over the predecessors can stop early (%s): predecessors listed after that '
+                                  'point are dropped from the transfer wait' % how)
+                continue
             apps = [ef for e in seg for ef in effects_of_event(canon, e) if ef.kind == 'append']
             tests = [(e.node, e.pol) for e in seg if e.kind == 'test']
             diff = None
